@@ -328,6 +328,155 @@ impl Engine for FaultWalk {
     }
 }
 
+// ------------------------------------------------------------------------------------------------
+// the tolerated failure, with a token whose transfers out of the farm manager are frozen
+
+#[derive(Debug, Clone, Serialize, Deserialize)]
+pub struct FrozenCase {
+    pub cfg: FCfg,
+    /// farms that will have expired: (owner, reward denom index 0..3, amount, length)
+    pub old_farms: Vec<(u8, u8, u64, u8)>,
+    pub positions: Vec<FOp>,
+    pub claims: Vec<u8>,
+    /// which reward denom is frozen
+    pub frozen: u8,
+    /// true: a new farm is created (auto-closing the expired ones); false: the contract owner closes them one by one
+    pub via_create: bool,
+    pub creator: u8,
+}
+
+pub fn frozen_case() -> impl Strategy<Value = FrozenCase> {
+    (
+        cfg_strat(),
+        proptest::collection::vec((0u8..2, 0u8..3, 2000u64..5_000_000, 2u8..6), 1..4),
+        proptest::collection::vec(open_strat(), 1..3),
+        proptest::collection::vec(0u8..4, 0..3),
+        0u8..3,
+        any::<bool>(),
+        0u8..4,
+    )
+        .prop_map(|(mut cfg, old_farms, positions, claims, frozen, via_create, creator)| {
+            cfg.max_farms = 3;
+            cfg.n_lp = 1;
+            // the creation fee must not be in a reward denom: its transfer to the fee collector is an
+            // ordinary message of the creation, not a refund
+            if cfg.fee_variant % 3 == 1 {
+                cfg.fee_variant = 2;
+            }
+            FrozenCase { cfg, old_farms, positions, claims, frozen, via_create, creator }
+        })
+}
+
+pub struct FrozenRefund;
+
+fn build_frozen(c: &FrozenCase, st: &mut Stats) -> Result<FarmSim, String> {
+    let mut sim = FarmSim::new(&c.cfg, FMon { c20: true, ..FMon::default() });
+    for p in c.positions.iter() {
+        sim.step(p, st)?;
+    }
+    for (owner, reward, amount, len) in c.old_farms.iter() {
+        sim.step(&FOp::Farm { user: *owner, lp: 0, reward: *reward, amount: *amount, start: Some(1), len: Some(*len), id: None, funds: Funds::Exact }, st)?;
+    }
+    sim.step(&FOp::Advance(Adv::Epochs(3)), st)?;
+    for u in c.claims.iter() {
+        sim.step(&FOp::Claim { user: *u, until: Until::None }, st)?;
+    }
+    // long after every farm ended and expired
+    sim.w.advance(80 * DAY);
+    Ok(sim)
+}
+
+fn close_expired(sim: &mut FarmSim, c: &FrozenCase, st: &mut Stats) -> Result<(), String> {
+    if c.via_create {
+        // reward in ubtc... unless ubtc is the frozen one, then uusdc (the new farm's own funding is
+        // a transfer INTO the farm manager and is not affected by the freeze)
+        sim.step(&FOp::Farm { user: c.creator, lp: 0, reward: 2, amount: 5000, start: Some(1), len: Some(3), id: None, funds: Funds::Exact }, st)
+    } else {
+        let n = sim.l.farms.len();
+        for _ in 0..n {
+            sim.step(&FOp::CloseFarm { by: 1, farm: 0 }, st)?;
+        }
+        Ok(())
+    }
+}
+
+impl Engine for FrozenRefund {
+    type Case = FrozenCase;
+    fn name(&self) -> &'static str {
+        "frozen-refund-twins"
+    }
+    fn strategy(&self, _t: Tier) -> BoxedStrategy<FrozenCase> {
+        frozen_case().boxed()
+    }
+    fn run(&self, c: &FrozenCase, st: &mut Stats) -> Result<(), String> {
+        let mut scratch = Stats::default();
+        scratch.frozen = true;
+        let mut a = build_frozen(c, &mut scratch)?;
+        let mut b = build_frozen(c, &mut scratch)?;
+        let farms_before: Vec<crate::farm::model::MFarm> = a.l.farms.values().cloned().collect();
+        if farms_before.is_empty() {
+            return Ok(());
+        }
+        let frozen_denom = crate::farm::interp::REWARD_DENOMS[c.frozen as usize % 3].to_string();
+        let fm_addr = a.w.farm_manager.to_string();
+        *a.w.ctl.frozen.borrow_mut() = Some((fm_addr, frozen_denom.clone()));
+        close_expired(&mut a, c, &mut scratch)?;
+        *a.w.ctl.frozen.borrow_mut() = None;
+        close_expired(&mut b, c, &mut scratch)?;
+        // which farms got closed (same in both worlds, the close must not be blocked)
+        let closed_a: Vec<String> = farms_before.iter().filter(|f| !a.l.farms.contains_key(&f.id)).map(|f| f.id.clone()).collect();
+        let closed_b: Vec<String> = farms_before.iter().filter(|f| !b.l.farms.contains_key(&f.id)).map(|f| f.id.clone()).collect();
+        if closed_a != closed_b {
+            return Err(format!("[C20] with transfers of {frozen_denom} out of the farm manager frozen, farms {:?} were closed; without the freeze {:?}", closed_a, closed_b));
+        }
+        let fa: Vec<String> = a.w.farms().into_iter().map(|f| f.identifier).collect();
+        let fb: Vec<String> = b.w.farms().into_iter().map(|f| f.identifier).collect();
+        if fa != fb {
+            return Err(format!("[C20] farms left after closing differ: frozen {:?} vs normal {:?}", fa, fb));
+        }
+        // only refunds in the frozen denom may be missing: they stay in the farm manager
+        let sa = Snapshot::take(&a.w);
+        let sb = Snapshot::take(&b.w);
+        let keys: std::collections::BTreeSet<_> = sa.balances.keys().chain(sb.balances.keys()).cloned().collect();
+        let mut stuck: i128 = 0;
+        for k in keys {
+            let d = sa.balances.get(&k).copied().unwrap_or(0) as i128 - sb.balances.get(&k).copied().unwrap_or(0) as i128;
+            if d == 0 {
+                continue;
+            }
+            if k.1 != frozen_denom {
+                return Err(format!(
+                    "[C20] closing farms {:?} while refunds in {frozen_denom} fail changed the balance of {} in {} by {d}: a failing refund must not affect any other farm's refund or balance",
+                    closed_a, k.0, k.1
+                ));
+            }
+            if k.0 == "farm_manager" {
+                stuck += d;
+            } else if d > 0 {
+                return Err(format!("[C20] {} gained {d} {frozen_denom} through a failing refund", k.0));
+            }
+        }
+        let expected_stuck: u128 = farms_before.iter().filter(|f| closed_a.contains(&f.id) && f.reward_denom == frozen_denom).map(|f| f.funded.saturating_sub(a_claimed(&farms_before, &f.id))).sum();
+        if stuck != expected_stuck as i128 {
+            return Err(format!("[C20] {stuck} {frozen_denom} stayed in the farm manager, the failed refunds amount to {expected_stuck}"));
+        }
+        st.bump("frozen-refund twins compared");
+        if stuck > 0 {
+            st.bump("twins where a refund actually failed");
+            let other_refunds = farms_before.iter().any(|f| closed_a.contains(&f.id) && f.reward_denom != frozen_denom && f.funded > f.claimed);
+            if other_refunds {
+                st.bump("twins where a refund failed while another farm's refund had to go through");
+                st.mark();
+            }
+        }
+        Ok(())
+    }
+}
+
+fn a_claimed(farms: &[crate::farm::model::MFarm], id: &str) -> u128 {
+    farms.iter().find(|f| f.id == id).map(|f| f.claimed).unwrap_or(0)
+}
+
 pub fn check(tier: Tier, seed: u64) -> PropReport {
     use crate::props::farmprops::c20_farm_engine;
     use crate::props::poolprops::c20_hist;
@@ -336,7 +485,7 @@ pub fn check(tier: Tier, seed: u64) -> PropReport {
         tier,
         seed,
         "fault_enumeration",
-        "engine X: state reached by a generated farm/pool history of 5-25 operations (positions, farms, claims, time) x one message of every kind (create pool, plain / locked / single-asset / locked single-asset deposit, withdraw liquidity, swap with another receiver, 1-3 hop route, create farm (incl. one that closes expired farms on the way), expand farm, close farm, open / expand / close / withdraw / emergency-withdraw position, locked deposit into a named position, claim) executed with a failure injected at internal call k = 0,1,2,... (every bank send/burn, token-factory mint/burn/create-denom and contract call the message makes, in order) until it runs without reaching the armed call; oracle: a faulted execution must leave the complete snapshot (all balances, supplies, raw storage of the four contracts) equal to the one before; the only tolerated change is when the failing call is the refund of a farm being closed: then the message completes and the world must equal a fault-free twin built from the same values except that the refund stays in the farm manager. engines P and F (rejection part): in generated pool and farm histories with many invalid messages every rejected message - by validation, authorisation, limits, slippage, arithmetic - is followed by the same snapshot comparison. non-trivial = faulted execution at call index >= 1 (X); history with >= 1 swap, >= 1 withdrawal and pools sharing a denom (P); every farm history counts its rejected messages (F)",
+        "engine X: state reached by a generated farm/pool history of 5-25 operations (positions, farms, claims, time) x one message of every kind (create pool, plain / locked / single-asset / locked single-asset deposit, withdraw liquidity, swap with another receiver, 1-3 hop route, create farm (incl. one that closes expired farms on the way), expand farm, close farm, open / expand / close / withdraw / emergency-withdraw position, locked deposit into a named position, claim) executed with a failure injected at internal call k = 0,1,2,... (every bank send/burn, token-factory mint/burn/create-denom and contract call the message makes, in order) until it runs without reaching the armed call; oracle: a faulted execution must leave the complete snapshot (all balances, supplies, raw storage of the four contracts) equal to the one before; the only tolerated change is when the failing call is the refund of a farm being closed: then the message completes and the world must equal a fault-free twin built from the same values except that the refund stays in the farm manager. engine T (frozen token): 1-3 farms with different reward denoms are left to expire, then closed (by a farm creation that auto-closes them, or one by one by the contract owner) in a world where every transfer of one reward denom out of the farm manager fails, and in a twin without the freeze: the same farms must be closed, only refunds in the frozen denom may be missing (they stay in the farm manager, exactly their amount), every other balance - in particular the other farms' refunds - must be identical. engines P and F (rejection part): in generated pool and farm histories with many invalid messages every rejected message - by validation, authorisation, limits, slippage, arithmetic - is followed by the same snapshot comparison. non-trivial = faulted execution at call index >= 1 (X); history with >= 1 swap, >= 1 withdrawal and pools sharing a denom (P); every farm history counts its rejected messages (F)",
     );
     rep.assumptions = vec![
         "cw-multi-test's transactional semantics (sub-message rollback, reply_on_error) model the chain's; they are part of the trusted base".into(),
@@ -348,6 +497,13 @@ pub fn check(tier: Tier, seed: u64) -> PropReport {
     };
     let o = drive(&FaultWalk, "C20", tier, x, seed);
     rep.push(FaultWalk.name(), o);
+    let fz = match tier {
+        Tier::Quick => 600,
+        Tier::Thorough => 20_000,
+    };
+    let o = drive(&FrozenRefund, "C20", tier, fz, seed);
+    rep.push(FrozenRefund.name(), o);
+    rep.floor("twins where a refund failed while another farm's refund had to go through", fz / 20);
     let e = c20_hist();
     let n = match tier {
         Tier::Quick => 1000,
